@@ -31,6 +31,12 @@ pub struct HistCase {
 
 /// Record i is identifiable by its first x coordinate == i.
 fn build_files(n: usize, equal: bool) -> (Vec<u8>, Vec<u8>, Vec<u8>) {
+    build_files_sized(n, equal, 0)
+}
+
+/// `extra` more points per record: with ~185 points a record is ~3 KB, so three of them cross the 8 KiB buffer
+/// edge of the BufReader used by the path-based readers.
+fn build_files_sized(n: usize, equal: bool, extra: usize) -> (Vec<u8>, Vec<u8>, Vec<u8>) {
     let mut shp = Cursor::new(Vec::new());
     let mut shx = Cursor::new(Vec::new());
     let mut dbf = Cursor::new(Vec::new());
@@ -43,11 +49,12 @@ fn build_files(n: usize, equal: bool) -> (Vec<u8>, Vec<u8>, Vec<u8>) {
         for i in 0..n {
             let mut rec = dbase::Record::default();
             rec.insert("idx".to_string(), dbase::FieldValue::Numeric(Some(i as f64)));
-            if equal {
+            if equal && extra == 0 {
                 w.write_shape_and_record(&Point::new(i as f64, 0.5), &rec).expect("write");
             } else {
-                // i + 2 points: pairwise different record sizes
-                let pts: Vec<Point> = (0..i + 2).map(|k| Point::new(if k == 0 { i as f64 } else { 100.0 + k as f64 }, k as f64)).collect();
+                // i + 2 points: pairwise different record sizes (equal sizes when `equal` and big)
+                let npts = if equal { 2 + extra } else { i * 13 + 2 + extra };
+                let pts: Vec<Point> = (0..npts).map(|k| Point::new(if k == 0 { i as f64 } else { 100.0 + k as f64 }, k as f64)).collect();
                 w.write_shape_and_record(&Polyline::new(pts), &rec).expect("write");
             }
         }
@@ -204,7 +211,7 @@ impl Prop for Histories {
     fn rule() -> &'static str {
         "bounded-exhaustive: every sequence of length <= L (quick 5, thorough 6; complete Reader and index-less reader: one more) over \
          {iterate j items (j=0,1,2,all), read_nth(i) i in 0..=n, seek(k) k in 0..=n, shape_count} on ShapeReader::with_shx; {iterate j \
-         pairs, seek(k), shape_count} on the complete Reader (rows carry their index); {iterate j} on a reader without index; the ShapeReader and Reader histories also through from_path on real files (one op shorter); files with \
+         pairs, seek(k), shape_count} on the complete Reader (rows carry their index); {iterate j} on a reader without index; the ShapeReader and Reader histories also through from_path on real files (one op shorter, records of ~3 KB so that the file spans BufReader's 8 KiB buffer); files with \
          n=3 (thorough also 4) records of pairwise different sizes and of equal sizes. Oracle: reference state machine (read_nth(i) -> \
          record i / None; count constant; iteration after open / successful read_nth / seek(k) yields exactly 0.. / 0.. / k.. then ends; \
          a further iteration yields the not-yet-consumed records or all records from the first; rows stay aligned). \
@@ -212,7 +219,7 @@ impl Prop for Histories {
     }
     fn check(c: &HistCase, ctx: &mut Ctx) -> Result<(), Fail> {
         let n = c.n as usize;
-        let (shp, shx, dbf) = build_files(n, c.equal_sizes);
+        let (shp, shx, dbf) = if c.reader >= 3 { build_files_sized(n, c.equal_sizes, 185) } else { build_files(n, c.equal_sizes) };
         let mut model = Model {
             n,
             pos: vec![0],
@@ -285,7 +292,7 @@ impl Prop for Histories {
             3 | 4 => {
                 // the same histories through files on disk (ShapeReader::from_path / Reader::from_path: BufReader<File>)
                 let dir = crate::common::scratch_dir();
-                let p = dir.join(format!("c15-{}-{}.shp", n, c.equal_sizes as u8));
+                let p = dir.join(format!("c15-big-{}-{}.shp", n, c.equal_sizes as u8));
                 if !p.exists() || std::fs::metadata(&p).map(|m| m.len()).unwrap_or(0) != shp.len() as u64 {
                     std::fs::write(&p, &shp).map_err(|e| Fail::new("disk-io", e.to_string()))?;
                     std::fs::write(p.with_extension("shx"), &shx).map_err(|e| Fail::new("disk-io", e.to_string()))?;
